@@ -20,6 +20,7 @@ CONFIG = dict(
     trusted=["the wire rendering of updates (UpdateWriter) is parsed by the harness"],
     assumptions=["operations are valid calls (expunge/flags numbers within the mailbox, counts never decrease): the Go code panics otherwise, outside the property's domain"],
     leanchecker=True,
+    shrink={"hist": (5, ";")},
     level_text="proof: theorems about the mirrored tracker (poll emits an expunge-free prefix or everything, in order; decode/encode identify the same ghost message identity or 0) for all histories; the mirror is tied to imapserver's tracker on every run and a ghost-identity specification judges every poll and every translation of the implementation",
     level_note="Trusted: Lean kernel; harness/driver. decode_spec/encode_spec/inv_reachable are listed at the top of lean/GoImap/Props/C07.lean with their status.",
 )
